@@ -169,3 +169,73 @@ func VerifC16Deploy() {
 		verifrt.Assert(err != nil, "C16/deployment-error-is-retried")
 	}
 }
+
+// VerifC16DeploymentWrite: the write of the ObjectDeployment by the real DeploymentReconciler. Whatever the stored
+// ObjectDeployment looks like (absent, or an earlier render plus third-party annotations) and whether or not the
+// update runs into a conflict first (somebody else wrote the object in between; the retry re-reads it), the stored
+// template ends up equal to the fresh render, desired labels/annotations are set and foreign ones kept.
+func VerifC16DeploymentWrite() {
+	c := verifk8s.NewClient()
+	c.Apply = true
+	exists := verifrt.Bool("objectDeployment.exists")
+	if exists {
+		old := &corev1alpha1.ObjectDeployment{}
+		old.Name, old.Namespace, old.UID = "dep", "ns", "uid-dep"
+		old.ResourceVersion = "5"
+		old.Annotations = map[string]string{"foreign": "keep", "package-operator.run/source-image": "img:v1"}
+		old.Labels = map[string]string{"foreign": "keep"}
+		old.Spec.Template.Spec.Phases = []corev1alpha1.ObjectSetTemplatePhase{{Name: "p", Objects: []corev1alpha1.ObjectSetObject{vPlainObject(7)}}}
+		c.Put(old)
+	}
+	conflicts := verifrt.IntRange("update.conflicts", 0, 2) // number of updates answered with 409 before one succeeds
+	seen := 0
+	c.Outcome = func(call *verifk8s.Call) error {
+		if call.Verb == "update" && call.Key.Kind == "ObjectDeployment" {
+			seen++
+			if seen <= conflicts {
+				// somebody else wrote the object in between: the stored object changed
+				if m, ok := c.Objs[call.Key]; ok {
+					md, _ := m["metadata"].(map[string]interface{})
+					md["resourceVersion"] = "6"
+				}
+				return verifk8s.Conflict("dep")
+			}
+		}
+		return nil
+	}
+	c.OnList = func(list client.ObjectList, _ *client.ListOptions) error { return nil }
+	desired := &adapters.ObjectDeployment{}
+	desired.Name, desired.Namespace = "dep", "ns"
+	desired.Annotations = map[string]string{"package-operator.run/source-image": "img:v2"}
+	desired.Labels = map[string]string{"package-operator.run/package": "demo"}
+	nObj := verifrt.IntRange("render.objects", 1, 2)
+	ph := corev1alpha1.ObjectSetTemplatePhase{Name: "p"}
+	for k := 0; k < nObj; k++ {
+		ph.Objects = append(ph.Objects, vPlainObject(k))
+	}
+	desired.Spec.Template.Spec.Phases = []corev1alpha1.ObjectSetTemplatePhase{ph}
+	r := newDeploymentReconciler(vScheme(), c, adapters.NewObjectDeployment, adapters.NewObjectSlice, adapters.NewObjectSliceList, newGenericObjectSetList)
+	err := r.Reconcile(context.Background(), desired, &NoOpChunker{})
+	verifrt.Assert(err == nil, "C16/deployment-write-succeeds-after-conflicts")
+	stored := &corev1alpha1.ObjectDeployment{}
+	m, ok := c.Objs[verifk8s.Key{Kind: "ObjectDeployment", Namespace: "ns", Name: "dep"}]
+	verifrt.Assert(ok, "C16/object-deployment-exists-afterwards")
+	if !ok {
+		return
+	}
+	verifk8s.FromMap(m, stored)
+	phases := stored.Spec.Template.Spec.Phases
+	same := len(phases) == 1 && phases[0].Name == "p" && len(phases[0].Objects) == nObj
+	if same {
+		for k := 0; k < nObj; k++ {
+			same = same && phases[0].Objects[k].Object.GetName() == "o"+strconv.Itoa(k)
+		}
+	}
+	verifrt.Assert(same, "C16/stored-template-equals-fresh-render")
+	verifrt.Assert(stored.Annotations["package-operator.run/source-image"] == "img:v2" && stored.Labels["package-operator.run/package"] == "demo",
+		"C16/desired-labels-and-annotations-written")
+	if exists {
+		verifrt.Assert(stored.Annotations["foreign"] == "keep" && stored.Labels["foreign"] == "keep", "C16/foreign-labels-and-annotations-kept")
+	}
+	verifrt.Reach("deployment-written")
+}
